@@ -14,8 +14,8 @@ CONSTANTS
   Users = {"lp1", "lp2"}
   Traders = {"t1"}
   Ranges <- MCRanges
-  LiqUnits = {640, 1280}
-  Amounts = {1, 7, 40}
+  LiqUnits = {64, 640}
+  Amounts = {3, 40, 100}
   StartGrowth <- MCStartGrowth
   Limits <- MCNoLimits
   Thresholds <- MCVacuous
